@@ -85,6 +85,9 @@ func (o *openRun) setupPool() {
 func newOpenRun(out *TraceWriter, seed int64, run int, epoch int64, emitStart bool, nid int) *openRun {
 	rng := mrand.New(mrand.NewSource(seed*1000003 + int64(run)))
 	c := NewCluster(seed+int64(run), out)
+	if emitStart && run%5 == 2 {
+		c.Clk.Origin = FarOrigin // the injected clock lies far beyond the machine's date (traces stay relative to the origin)
+	}
 	c.Rng = rng
 	c.Clk.Now = epoch
 	o := &openRun{c: c, rng: rng, me: 500, nvals: map[uint32]int{}, myIdx: map[uint32]int{}, props: map[[2]int][]*Payload{}}
@@ -385,7 +388,7 @@ func (o *openRun) craft() *Payload {
 					txs = append(txs, H(fmt.Sprintf("t%d.%d", ph, k)))
 				}
 			}
-			ts := d.VerifSnapshot().LastBlockTimestamp + uint64(1+rng.Intn(3))*n.Cfg.Inc
+			ts := rel(d.VerifSnapshot().LastBlockTimestamp, n.Clk.Origin) + uint64(1+rng.Intn(3))*n.Cfg.Inc
 			switch rng.Intn(6) { // nobody checks a proposal's timestamp but the application
 			case 0:
 				ts = uint64(c.Clk.Now-o.tsShift) + uint64(1000+rng.Intn(5000))
@@ -507,6 +510,11 @@ func runShift(out *TraceWriter, seed int64, run int, steps int) {
 	rand.Reader = srcB
 	b := newOpenRun(out, seed, run, base+delta, false, 500)
 	a.noDup, b.noDup = true, true
+	if run%4 == 1 {
+		// the second clock also lies two centuries beyond the machine's date (traces stay relative to the origin): "the result
+		// does not depend on the machine's wall clock" on both sides of it
+		b.c.Clk.Origin = FarOrigin
+	}
 	mode := "world"
 	if run%3 == 2 {
 		mode = "inputs"
@@ -514,7 +522,7 @@ func runShift(out *TraceWriter, seed int64, run int, steps int) {
 		b.n.TipTs = a.n.TipTs
 	}
 	out.Write(RunStart{Call: "RunStart", Run: run, Seed: seed, Driver: "shift", Nodes: []int{500}, Faulty: []int{},
-		Params: map[string]any{"delta": delta, "base": base, "n0": a.nvals[0], "myIndex": a.myIdx[0], "mode": mode}})
+		Params: map[string]any{"delta": delta, "base": base, "n0": a.nvals[0], "myIndex": a.myIdx[0], "mode": mode, "farOrigin": b.c.Clk.Origin > 0}})
 	i := 0
 	emit := func(la, lb *Line) bool {
 		if (la == nil) != (lb == nil) {
